@@ -717,21 +717,24 @@ class MembersType(StandardEncodeMixin, StandardDecodeMixin, Type):
         return encoded_members
 
     def encode_additions(self, data, encoded_members):
-        try:
-            for addition in self.additions:
-                encoded_addition = bytearray()
+        for addition in self.additions:
+            encoded_addition = bytearray()
 
-                if isinstance(addition, list):
-                    for member in addition:
-                        self.encode_member(member, data, encoded_addition)
-                else:
-                    self.encode_member(addition,
-                                       data,
-                                       encoded_addition)
+            if isinstance(addition, list):
+                members = addition
+            else:
+                members = [addition]
 
-                encoded_members.extend(encoded_addition)
-        except EncodeError:
-            pass
+            # An addition (group) that is not part of the value is
+            # absent, as in a value of an older version. Errors in
+            # additions that are given are not hidden.
+            if not any(member.name in data for member in members):
+                continue
+
+            for member in members:
+                self.encode_member(member, data, encoded_addition)
+
+            encoded_members.extend(encoded_addition)
 
     def encode_member(self, member, data, encoded_members):
         name = member.name
